@@ -251,6 +251,11 @@ def shardedTreeRoots (root : Nat → Nat → BlockDiag.A2 α → ρ) (filler : B
   Devices.shardedViews (fun st => root N st.size st.dat) filler D leaves.flatten
     ((BlockDiag.indexStarts (leaves.map List.length) 0).zip (leaves.map List.length))
 
+/-- the acceptance gate applied to the (root, reported error) pairs the tree-wide computation returned, slot by slot:
+`_select_preconditioner(error, new_p, old_p)` over all leaves -/
+def gateTree {π : Type} (thr : XF) (res : List (List (π × XF))) (old : List (List π)) : List (List π) :=
+  List.zipWith (List.zipWith fun r o => select r.2 thr r.1 o) res old
+
 /-- a tabulated matrix of C08 as an `n × n` matrix of C01 -/
 def ofA2 [Zero α] (n : Nat) (a : BlockDiag.A2 α) : Mat α n n := fun i j => BlockDiag.rdM a i.val j.val
 
